@@ -13,6 +13,7 @@
 # limitations under the License.
 """Symbolic dict."""
 
+import copy
 import typing
 from typing import Any, Callable, Iterable, Iterator, List, Optional, Sequence, Set, Tuple, Union
 
@@ -596,7 +597,9 @@ class Dict(dict, base.Symbolic, pg_typing.CustomTyping):
     allow_partial = base.accepts_partial(self)
     if field and pg_typing.MISSING_VALUE == value:
       # NOTE(daiyip): default value is already in transformed form.
-      value = field.default_value
+      # A copy is used (as `Schema.apply` does), or the default value object
+      # owned by the schema would become a member of this dict.
+      value = copy.deepcopy(field.default_value)
     else:
       value = base.from_json(
           value,
